@@ -1,5 +1,5 @@
 (* finite obligations on the regenerated inventory (re-checked on every run against the current source) *)
-From Coq Require Import ZArith List Bool.
+From Coq Require Import ZArith List Bool String.
 From RV Require Import Base.Wire Base.Text Lang.Order Gen.SetSites Lang.OrderSites.
 Import ListNotations.
 Open Scope Z_scope.
@@ -37,3 +37,18 @@ Proof.
   apply andb_true_iff in Hb as [Hb H4]. apply andb_true_iff in Hb as [Hb H3]. apply andb_true_iff in Hb as [H1 H2].
   exists s. split; [exact Hs|]. repeat split; try (apply text_eqb_eq; assumption). apply Z.eqb_eq. exact H4.
 Qed.
+
+Lemma imports_accounted_b : forallb import_accounted imports = true.
+Proof. vm_compute. reflexivity. Qed.
+
+Lemma imports_accounted : forall i, In i imports ->
+  In (i_module i) allowed_modules \/ (i_module i = txt "os"%string /\ i_fn i = hook_fn).
+Proof.
+  intros i Hi. pose proof imports_accounted_b as H. rewrite forallb_forall in H. specialize (H i Hi).
+  unfold import_accounted in H. apply orb_true_iff in H as [H|H].
+  - left. apply tmem_In. exact H.
+  - right. apply andb_true_iff in H as [H1 H2]. split; apply text_eqb_eq; assumption.
+Qed.
+
+Lemma no_ambient_calls : ambient_calls = [].
+Proof. vm_compute. reflexivity. Qed.
